@@ -127,10 +127,6 @@ def fresh_expected(twin_src, op, aux=None, want_snapshot=None):
 # classification of a difference (signatures of the known findings; nothing wider)
 # ---------------------------------------------------------------------------
 
-def has_spec_stub(snap) -> bool:
-    return any(k == "S" and SPEC_RE.search(m) for c in snap.values() for m, k in c["m"].items())
-
-
 def has_class_cycle(fam) -> bool:
     """a reference cycle through at least two distinct classes"""
     cl = fam["classes"]
@@ -159,10 +155,6 @@ def classify(fam, op, got, exp, got_aux, exp_aux, got_snap, exp_snap, src="") ->
         if out[0] != "EXC" or out == other:
             continue
         if out[1] == "RecursionError":
-            if aux.get("rec") == "redispatch" and has_spec_stub(snap):
-                # the stub installed for a specialised method G.__mashumaro_*_<md5>__ rebuilds the
-                # *unspecialised* method (type_args are not passed on) and re-dispatches to itself
-                return {**sig, "kind": "stub-at-specialisation-slot", "side": side}
             if aux.get("rec") == "build-cycle" and has_class_cycle(fam):
                 # on-demand nested compilation follows a class cycle whose methods are installed only at the end
                 return {**sig, "kind": "ondemand-build-cycle", "side": side}
@@ -546,19 +538,28 @@ def run(ctx: vlib.Ctx):
     sys.setrecursionlimit(RECLIMIT)
     try:
         from harness.props import c14_coq
-        c14_coq.theorems(ctx)
+        import time
+        phases = ctx.coverage.setdefault("phase_seconds", {})
+
+        def phase(name, f, *a, **kw):
+            t0 = time.time()
+            try:
+                return f(*a, **kw)
+            finally:
+                phases[name] = round(phases.get(name, 0) + time.time() - t0, 1)
+        phase("theorems", c14_coq.theorems, ctx)
         cases = []
-        oracle_histories(ctx, ctx.budget(70, 1300), keep_cases=cases)
-        oracle_histories(ctx, ctx.budget(60, 500), keep_cases=cases, focus="spec")
-        oracle_histories(ctx, ctx.budget(60, 500), keep_cases=cases, focus="kwargs")
-        tie_ok = c14_coq.correspondence(ctx, cases)
+        phase("histories", oracle_histories, ctx, ctx.budget(70, 1300), keep_cases=cases)
+        phase("histories-spec", oracle_histories, ctx, ctx.budget(60, 500), keep_cases=cases, focus="spec")
+        phase("histories-kwargs", oracle_histories, ctx, ctx.budget(60, 500), keep_cases=cases, focus="kwargs")
+        tie_ok = phase("correspondence", c14_coq.correspondence, ctx, cases)
         if not tie_ok or ctx.unshown:
             # a broken obligation / tie: search harder where the disagreement lives
-            oracle_histories(ctx, ctx.budget(150, 600), focus="spec")
-            oracle_histories(ctx, ctx.budget(100, 400), focus="kwargs")
-        oracle_scenarios(ctx)
-        oracle_discriminated(ctx, ctx.budget(90, 600))
-        oracle_threads(ctx, ctx.budget(16, 150), ctx.budget(6, 12))
+            phase("search-harder", oracle_histories, ctx, ctx.budget(150, 600), focus="spec")
+            phase("search-harder", oracle_histories, ctx, ctx.budget(100, 400), focus="kwargs")
+        phase("scenarios", oracle_scenarios, ctx)
+        phase("discriminated", oracle_discriminated, ctx, ctx.budget(90, 600))
+        phase("threads", oracle_threads, ctx, ctx.budget(16, 150), ctx.budget(6, 12))
     finally:
         sys.setrecursionlimit(old)
     ctx.trusted += [
